@@ -6,7 +6,6 @@ import (
 	"fmt"
 	"net/url"
 	"regexp"
-	"text/template"
 	"unicode/utf8"
 
 	"github.com/robfig/soy/data"
@@ -41,9 +40,16 @@ var PrintDirectives = map[string]PrintDirective{
 // Callers may add their own print directives to this list.
 var ObligatoryPrintDirectiveNames = []string{}
 
+// escapeHtml is htmlEscapeString into a string.
+func escapeHtml(s string) string {
+	var buf bytes.Buffer
+	htmlEscapeString(&buf, s)
+	return buf.String()
+}
+
 func directiveInsertWordBreaks(value data.Value, args []data.Value) data.Value {
 	var (
-		input    = template.HTMLEscapeString(value.String())
+		input    = escapeHtml(value.String())
 		maxChars = int(args[0].(data.Int))
 		chars    = 0
 		inEntity = false
@@ -76,7 +82,7 @@ var newlinePattern = regexp.MustCompile(`\r\n|\r|\n`)
 
 func directiveChangeNewlineToBr(value data.Value, _ []data.Value) data.Value {
 	return data.String(newlinePattern.ReplaceAllString(
-		template.HTMLEscapeString(value.String()),
+		escapeHtml(value.String()),
 		"<br>"))
 }
 
@@ -123,7 +129,7 @@ func directiveNoAutoescape(value data.Value, _ []data.Value) data.Value {
 }
 
 func directiveEscapeHtml(value data.Value, _ []data.Value) data.Value {
-	return data.String(template.HTMLEscapeString(value.String()))
+	return data.String(escapeHtml(value.String()))
 }
 
 func directiveEscapeUri(value data.Value, _ []data.Value) data.Value {
